@@ -155,6 +155,21 @@ structure Builder where
 /-- `BlteBuilder::new` (`DEFAULT_CHUNK_SIZE` = 256 KiB). -/
 def Builder.init : Builder := ⟨[], .none, 262144, none⟩
 
+/-- `MIN_CHUNK_SIZE` (1 KiB): the smallest size the validated `with_chunk_size` accepts. -/
+def minChunkSize : Nat := 1024
+
+/-- `MAX_CHUNK_SIZE` (16 MiB): the largest number of CONTENT bytes per chunk the validated
+`with_chunk_size` accepts. A stored chunk is longer: one mode byte, 16 more bytes when encrypted
+(`encHeaderLen`), and whatever a compressor adds to content it cannot shrink. No reader-side
+limit is derived from it (`ChunkData::read_options` compares a table entry with what the stream
+still holds, nothing else). -/
+def maxChunkSize : Nat := 16777216
+
+/-- bytes an encrypted chunk adds in front of the ciphertext: key-name size, key name, IV size,
+IV, cipher type (`encrypt_chunk_with_key`), after the chunk's own mode byte `E`; the ciphertext
+itself starts with the inner mode byte. -/
+def encHeaderLen : Nat := 1 + 8 + 1 + 4 + 1
+
 /-- `build_inner_payload`: mode byte + raw or compressed data. -/
 def buildInner (cd : Codec) (mode : Mode) (data : Bytes) : Except Err Bytes :=
   let inner : Mode := if mode ≠ .none ∧ mode ≠ .enc then mode else .none
@@ -222,7 +237,10 @@ def addWith (cd : Codec) (b : Builder) (enc : Option (EncSpec × Bytes)) (data :
 /-- builder calls -/
 inductive Op
   | withCompression (m : Mode)
+  /-- `with_chunk_size_unchecked` -/
   | withChunkSize (n : Nat)
+  /-- `with_chunk_size`: `Err(InvalidChunkSize)` outside `MIN_CHUNK_SIZE..=MAX_CHUNK_SIZE` -/
+  | withChunkSizeChecked (n : Nat)
   | withEncryption (s : EncSpec) (key : Bytes)
   | withoutEncryption
   | addData (d : Bytes)
@@ -234,6 +252,8 @@ inductive Op
 def step (cd : Codec) (b : Builder) : Op → Except Err Builder
   | .withCompression m => .ok { b with mode := m }
   | .withChunkSize n => .ok { b with chunkSize := n }
+  | .withChunkSizeChecked n =>
+    if n < minChunkSize ∨ maxChunkSize < n then .error .chunkSize else .ok { b with chunkSize := n }
   | .withEncryption s k => .ok { b with enc := some (s, k) }
   | .withoutEncryption => .ok { b with enc := none }
   | .addData d => addWith cd b b.enc d
